@@ -40,6 +40,8 @@ def run(F, rep, tier):
     mirror_rule(F, rep)
     arithmetic_rule(F, rep)
     binding_rule(F, rep)
+    conditional_rule(F, rep)
+    context_visibility_rule(F, rep)
     # premises
     c13.scope_neutral_premise(F, rep, "dmntk_feel_evaluator", 25)
     import callgraph
@@ -376,17 +378,35 @@ def mirror_rule(F, rep):
 KINDS = ["Number", "String", "Boolean", "Null", "List", "Context"]
 
 
+def builder_roles(h):
+    """which captured sub-evaluator was built from which parameter of the builder: `let lhe = build_evaluator(lhs)?` -> {lhe: 0}"""
+    pnames = [p.get("name") for p in h.get("params", [])]
+    role = {}
+    for stx, _ in find_hir(h["body"], lambda x: x.get("k") == "LetStmt" and x.get("p", {}).get("k") == "Bind" and "e" in x):
+        for call, _ in find_hir(stx["e"], lambda x: x.get("k") == "Call" and (x.get("callee") or "").endswith("::build_evaluator") and x.get("args")):
+            a = strip(call["args"][0])
+            if a.get("k") == "Path" and a.get("name") in pnames:
+                role[stx["p"]["name"]] = pnames.index(a["name"])
+    return role
+
+
 def eval_binary(F, fn, L, R):
-    """fold the evaluator closure built by a binary builder with the two captured sub-evaluators answering L and R (bound in order of first call)"""
+    """fold the evaluator closure built by a binary builder with the two captured sub-evaluators answering L and R (bound by the builder parameter they were
+    built from; in order of first call when the builder has another shape)"""
     h = F.hir_fn(fn)
     c = closure_of(h)
     if c is None:
         return None
+    role = builder_roles(h)
+    if sorted(role.values()) != [0, 1]:
+        role = None
     order = []
 
     def hook(callee, args, st):
         if callee and callee.startswith("local:") and len(args) == 1 and args[0] == sym("scope"):
             nm = callee[6:]
+            if role is not None:
+                return (L if role[nm] == 0 else R) if nm in role else None
             if nm not in order:
                 order.append(nm)
             i = order.index(nm)
@@ -406,6 +426,26 @@ def kind_of(v):
         a, b = kind_of(v[2]), kind_of(v[3])
         return a if a == b else "%s|%s" % (a, b)
     return "?"
+
+
+def operand_order(vals):
+    """"in-order" / "swapped" / None: in the smallest operation node that mentions both payloads, does the left payload come first ?"""
+    best = None
+
+    def rec(v):
+        nonlocal best
+        if isinstance(v, (tuple, list)):
+            r = repr(v)
+            if "'L0'" in r and "'R0'" in r:
+                if isinstance(v, tuple) and v and v[0] in ("bin", "call") and (best is None or len(r) < len(best)):
+                    best = r
+                for x in v:
+                    rec(x)
+    for v in vals:
+        rec(v)
+    if best is None:
+        return None
+    return "in-order" if best.index("'L0'") < best.index("'R0'") else "swapped"
 
 
 def arithmetic_rule(F, rep):
@@ -442,6 +482,12 @@ def arithmetic_rule(F, rep):
                 else:
                     want = {"Null"}
                     allowed = {"Null"}
+                if lk == "Number" and rk == "Number" and op in ("-", "/", "**"):
+                    # the operation is not commutative: the left operand of the expression is the left operand of the operation
+                    order = operand_order([v for _, v in outs])
+                    if order == "swapped":
+                        rep.violation(rid, key + ":order", "number %s number is computed with the operands exchanged (right %s left)" % (op, op), where)
+                        continue
                 if "?" in ks:
                     rep.undecided(rid, key, "%s %s %s folds to %s" % (lk, op, rk, sorted(ks)))
                 elif not ks <= allowed or not want <= ks:
@@ -511,3 +557,121 @@ def binding_rule(F, rep):
                 n.split("::")[-1], [c for c in skipping[0].conds][:3]), where)
         else:
             rep.ok(rid, key, "%d paths: each binds the parameter or returns" % len(outs))
+
+
+# ====================================================================================================== R01.6
+def conditional_rule(F, rep):
+    """if c then a else b: a when c is true, b when c is false; a condition that is not true never selects the then-branch"""
+    rid = rep.rule("R01.6", "`if`: a true condition selects the then-branch only, a false condition the else-branch only, and no other condition value selects the then-branch")
+    fn = B + "build_if"
+    h = F.hir.get(fn)
+    if h is None:
+        rep.missing_anchor(rid, fn)
+        return
+    c = closure_of(h)
+    if c is None:
+        rep.undecided(rid, "if", "build_if does not return a closure")
+        return
+    adt = F.adts.get(c09.VALUE_ADT)
+    nf = {v["name"]: len(v["fields"]) for v in adt["variants"]} if adt else {}
+    conds = [("true", value("Boolean", mk_bool(True))), ("false", value("Boolean", mk_bool(False)))] + [(k.lower(), c09.mk(k, nf.get(k, 1), "C")) for k in ("Null", "Number", "String", "List", "Context")]
+    where = "%s:%s" % (h["file"], h["line"])
+    # which captured evaluator was built from which parameter of the builder: `let lhe = build_evaluator(lhs)?` -> {lhe: 0}
+    pnames = [p.get("name") for p in h.get("params", [])]
+    role = {}
+    for stx, _ in find_hir(h["body"], lambda x: x.get("k") == "LetStmt" and x.get("p", {}).get("k") == "Bind" and "e" in x):
+        for call, _ in find_hir(stx["e"], lambda x: x.get("k") == "Call" and (x.get("callee") or "").endswith("::build_evaluator") and x.get("args")):
+            a = strip(call["args"][0])
+            if a.get("k") == "Path" and a.get("name") in pnames:
+                role[stx["p"]["name"]] = pnames.index(a["name"])
+    if sorted(role.values()) != [0, 1, 2]:
+        rep.undecided(rid, "if", "the three sub-evaluators of build_if are not bound by `let x = build_evaluator(<parameter>)`")
+        return
+    for cname, cv in conds:
+        def hook(callee, args, st):
+            if callee and callee.startswith("local:") and len(args) == 1 and args[0] == sym("scope") and callee[6:] in role:
+                i = role[callee[6:]]
+                return cv if i == 0 else ("sym", "THEN") if i == 1 else ("sym", "ELSE")
+            return None
+        ev = Evaluator(F, call_hook=hook, max_paths=200)
+        try:
+            outs = ev.run(c["params"], c["body"], [sym("scope")])
+        except (TooManyPaths, ValueError, KeyError):
+            outs = None
+        key = "if:%s" % cname
+        if not outs:
+            rep.undecided(rid, key, "the closure does not fold")
+            continue
+        res = set()
+        for _, v in outs:
+            res.add("then" if v == ("sym", "THEN") else "else" if v == ("sym", "ELSE") else "null" if (isinstance(v, tuple) and v[0] == "v" and v[1] == "Null") else "?")
+        # the branch evaluators are bound in order of first call: when only one of them is called on this path it is named THEN - resolve by the closure's capture order instead
+        if "?" in res:
+            rep.undecided(rid, key, "the result for a %s condition does not fold (%s)" % (cname, sorted(res)))
+        elif cname == "true" and res != {"then"}:
+            rep.violation(rid, key, "`if true then a else b` answers %s" % "/".join(sorted(res)), where)
+        elif cname == "false" and res != {"else"}:
+            rep.violation(rid, key, "`if false then a else b` answers %s" % "/".join(sorted(res)), where)
+        elif cname not in ("true", "false") and "then" in res:
+            rep.violation(rid, key, "a condition of kind %s selects the then-branch" % cname, where)
+        else:
+            rep.ok(rid, key, "/".join(sorted(res)))
+
+
+# ====================================================================================================== R01.7
+def context_visibility_rule(F, rep):
+    """{a: 1, b: a + 1}: every evaluated entry is written into the context pushed for this literal before the next entry is evaluated"""
+    rid = rep.rule("R01.7", "context literal: inside the entry loop every evaluated entry is written both to the result and to the scope's own context, so that later entries see earlier ones")
+    fn = B + "build_context"
+    h = F.hir.get(fn)
+    if h is None:
+        rep.missing_anchor(rid, fn)
+        return
+    c = closure_of(h)
+    where = "%s:%s" % (h["file"], h["line"])
+    if c is None:
+        rep.undecided(rid, "context", "build_context does not return a closure")
+        return
+    loops = [lp for lp, _ in find_hir(c["body"], lambda x: x.get("k") == "Match" and x.get("src") == "ForLoopDesugar")]
+    if not loops:
+        rep.undecided(rid, "context", "no entry loop in the closure of build_context (iterator form)")
+        return
+    lp = loops[0]
+    inner = [x for x, _ in find_hir(lp["arms"], lambda x: x.get("k") == "Match" and x.get("src") == "ForLoopDesugar")]
+    body, p0 = None, None
+    for arm in (inner[0]["arms"] if inner else []):
+        if str(arm["p"].get("path", "")).endswith("Some"):
+            body = arm["b"]
+            p0 = (arm["p"].get("ps") or [None])[0]
+    if body is None:
+        rep.undecided(rid, "context", "loop body not recognised")
+        return
+    evals = [x for x, _ in find_hir(body, lambda x: x.get("k") == "Call" and x.get("callee") is None and any(strip(a).get("name") == "scope" for a in x.get("args", [])))]
+
+    def hook(callee, args, s):
+        cc = callee or ""
+        if cc.endswith("Scope::set_entry"):
+            return [(("scope-write",), ("unit",))]
+        if cc.endswith("FeelContext::set_entry"):
+            return [(("result-write",), ("unit",))]
+        if cc.startswith("local:") and len(args) == 1 and args[0] == sym("scope"):
+            return value("ContextEntry", sym("name"), sym("value"))
+        return None
+    ev = Evaluator(F, call_hook=hook, ints=True, max_paths=200)
+    st = State({"scope": sym("scope")})
+    if p0 is not None:
+        ev.match(p0, ("sym", "local-evaluator"), st.env)
+    # the loop variable is the evaluator: calling it is `local:<name>`
+    try:
+        outs = list(ev.ev(body, st))
+    except TooManyPaths:
+        outs = []
+    if not outs:
+        rep.undecided(rid, "context", "the entry loop does not fold")
+        return
+    bad = [s2 for s2, _ in outs if not (("scope-write",) in s2.conds and ("result-write",) in s2.conds)]
+    if bad:
+        missing = "the scope's own context" if ("scope-write",) not in bad[0].conds else "the result"
+        rep.violation(rid, "context", "build_context: an evaluated entry is not written to %s inside the entry loop: a later entry that refers to it sees null (or an outer binding)" % missing, where)
+    else:
+        rep.ok(rid, "context", "%d path(s): the entry is written to the result and to the scope before the next entry is evaluated" % len(outs))
